@@ -127,6 +127,7 @@ func (f *MapField) GenReadFrom() (string, error) {
 				for {
 					{{call .GenTlvNumberDecode "typ"}}
 					{{call .GenTlvNumberDecode "l"}}
+					{{call .GenTlvLengthCheck "l"}}
 					if typ == {{.M.ValField.TypeNum}} {
 						break
 					}
@@ -151,10 +152,12 @@ func (f *MapField) GenReadFrom() (string, error) {
 	g.executeTemplate(templ, struct {
 		M                  *MapField
 		GenTlvNumberDecode func(string) (string, error)
+		GenTlvLengthCheck  func(string) (string, error)
 		IsCritical         string
 	}{
 		M:                  f,
 		GenTlvNumberDecode: GenTlvNumberDecode,
+		GenTlvLengthCheck:  GenTlvLengthCheck,
 		IsCritical:         `((typ <= 31) || ((typ & 1) == 1))`,
 	})
 	return g.output()
